@@ -7,7 +7,6 @@ Tie (correspondence, evaluated with vm_compute on Kernels/Printer.v):
   C  real parse of a token stream         == parse_X tokens               AST or error class
      (token streams: the printed text, hand-laid-out sources, mutated streams)
   D  str(template) of whole templates     == show_items (flattened AST)   characters
-  E  _expression_as_string(tokens)        == line_str tokens              ({% liquid %} lines)
 
 where `ast` is a neutral dump of the *real* AST (class names and fields).
 
@@ -586,7 +585,9 @@ def dump_node(n: Any) -> list:  # noqa: PLR0911, PLR0912, PLR0915
         a, b, c, d = wcs(n.token)
         return [("raw", a, b, c, d, n.text)]
     if cls == "LiquidNode":
-        return [("text", str(n))]  # prints its tokens; outside the model
+        # Prints its tokens (outside the model): opaque text for the text
+        # comparison, plus the nodes of its block for tree comparisons.
+        return [("text", str(n)), ("inner", dump_nodes(n.block.nodes))]
     if cls == "AssignNode":
         return [tag(n.token, "assign", ("HAssign", str(n.name), dump_fexpr(n.expression)))]
     if cls == "EchoNode":
@@ -727,6 +728,7 @@ def template_case(t: Any, src: str) -> dict[str, Any] | None:
         items = dump_nodes(t.nodes)
     except Unsupported:
         return None
+    items = [i for i in items if i[0] != "inner"]
     text = str(t)
     pr = nonprintables(*strings_in(items))
     term = f"(show_items {C.clist((c_item(i, pr) for i in items), 'item')})"
@@ -1233,35 +1235,6 @@ def tag_envs() -> dict[bool, Any]:
     return _ENV["tag"]
 
 
-def tokens_dump(env: Any, src: str) -> Any:
-    """Neutral dump of the markup tokens (with the expression tokens) of a
-    source text: what has to be equal after a round trip for token-printing
-    nodes ({% liquid %})."""
-    from liquid2 import tokenize
-
-    def one(t: Any) -> Any:
-        n = type(t).__name__
-        if n == "LinesToken":
-            return ("lines", [str(w) for w in t.wc], [one(s) for s in t.statements])
-        if n == "TagToken":
-            try:
-                return ("tag", [str(w) for w in t.wc], t.name, toks_neutral(t.expression))
-            except Unsupported:
-                return ("tag", [str(w) for w in t.wc], t.name, [str(x) for x in t.expression])
-        if n == "OutputToken":
-            try:
-                return ("out", [str(w) for w in t.wc], toks_neutral(t.expression))
-            except Unsupported:
-                return ("out", [str(w) for w in t.wc], [str(x) for x in t.expression])
-        if n == "ContentToken":
-            return ("content", t.text)
-        if n == "RawToken":
-            return ("raw", [str(w) for w in t.wc], t.text)
-        # comments: a round trip may normalise the blanks around the text
-        return (n, [str(w) for w in t.wc], t.text.strip(), getattr(t, "hashes", ""))
-    return [one(t) for t in tokenize(env, src)]
-
-
 def oracle(env: Any, src: str, datas: list[dict[str, Any]]) -> tuple[str, str, dict[str, Any]] | None:
     """The property on the implementation. Returns (signature, what, replay)
     for the first failure, ("", "", info) if the property holds, or None if
@@ -1290,12 +1263,6 @@ def oracle(env: Any, src: str, datas: list[dict[str, Any]]) -> tuple[str, str, d
         info["modelled"] = True
     except Unsupported:
         info["modelled"] = False
-    if "liquid" in s1:
-        k1, k2 = tokens_dump(env, src), tokens_dump(env, s1)
-        strip_lines = lambda ks: [k for k in ks if k[0] == "lines"]  # noqa: E731
-        if strip_lines(k1) != strip_lines(k2):
-            info["tokens"], info["tokens2"] = strip_lines(k1), strip_lines(k2)
-            return ("oracle:liquid-tokens-differ", "a {% liquid %} tag has different tokens after a round trip", info)
     outs = []
     for data in datas:
         o1, o2 = render_outcome(t, data), render_outcome(t2, data)
@@ -1446,8 +1413,8 @@ def main(chk: C.Check, build: C.Build) -> None:  # noqa: PLR0912, PLR0915
     proofs_ok = C.proof_stage(chk, build, NEEDED)
     thorough = chk.tier == "thorough"
     r = C.rng("c12")
-    n_expr = 4500 if thorough else 330
-    n_tpl = 3500 if thorough else 260
+    n_expr = 3600 if thorough else 330
+    n_tpl = 2600 if thorough else 260
 
     # ---- expression level: correspondence A, B, C
     items: list[dict[str, Any]] = []
@@ -1547,7 +1514,7 @@ def main(chk: C.Check, build: C.Build) -> None:  # noqa: PLR0912, PLR0915
                  "lexed and parsed again, and every step is compared with Kernels/Printer.v (a third also with a "
                  "mutated token stream, for the error paths). Whole templates over every built-in tag, the Shopify "
                  "tablerow tag, all comment kinds, raw, {% liquid %} and all whitespace-control markers go through "
-                 "the direct oracle (reparse, 4 data sets, fixpoint, tree equality, pickle) and the markup-level "
+                 "the direct oracle (reparse, 4 data sets, fixpoint, tree equality incl. the statements of {% liquid %}, pickle) and the markup-level "
                  "text comparison. Non-trivial = distinct printed expressions that use at least one printer "
                  "mechanism (escape, bracket segment, grouping, lambda, keyword argument, ternary, range, array, "
                  "number) + distinct printed templates with >= 2 markup items that produced output."),
